@@ -132,6 +132,25 @@ func parseComparisonExpression(tokens []string) (*ExprNode, []string, error) {
 		}, newRemaining, nil
 	}
 
+	// Check NOT LIKE operator (two tokens): a NOT LIKE b is NOT (a LIKE b)
+	if len(remaining) >= 2 && strings.ToUpper(remaining[0]) == "NOT" && strings.ToUpper(remaining[1]) == "LIKE" {
+		right, newRemaining, err := parseArithmeticExpression(remaining[2:])
+		if err != nil {
+			return nil, nil, err
+		}
+
+		return &ExprNode{
+			Type:  TypeOperator,
+			Value: "NOT",
+			Left: &ExprNode{
+				Type:  TypeOperator,
+				Value: "LIKE",
+				Left:  left,
+				Right: right,
+			},
+		}, newRemaining, nil
+	}
+
 	// Check single token comparison operators
 	if len(remaining) > 0 && isComparisonOperator(remaining[0]) {
 		op := remaining[0]
